@@ -142,7 +142,7 @@ def run(tier, seed, replay=None):
     build = lib.Build().run()
     rep.proof = lib.compile_props(PID)
     rng = lib.rng_for(seed, PID)
-    n = 60 if tier == 'quick' else 1500
+    n = 60 if tier == 'quick' else 12000
     cases = [gen_case(rng, c, two=(c % 2 == 1), length=40 if tier == 'quick' else 60) for c in range(n)]
     if tier == 'thorough':
         cases += bfs_cases(rng)
